@@ -23,7 +23,8 @@ Inductive wstep :=
 | WLtxRename (x : wltx)           (* LiteFS publishes the transaction file (CommitWAL) *)
 | WCkptPage (p : N) (q : pg)      (* a checkpoint copies a page into the database file *)
 | WCkptTruncate (n : N)           (* ... and cuts the file to the last commit size *)
-| WRestart (salt : N).            (* the log restarts: new header, no frames *)
+| WRestart (salt : N)             (* the log restarts: new header, no frames *)
+| WRemoveWal.                     (* the log file is removed (Drop) *)
 
 Definition wstep_exec (d : wdisk) (s : wstep) : wdisk :=
   match s with
@@ -32,6 +33,7 @@ Definition wstep_exec (d : wdisk) (s : wstep) : wdisk :=
   | WCkptPage p q => {| wd_db := write_page (wd_db d) p q; wd_wal := wd_wal d; wd_ltx := wd_ltx d |}
   | WCkptTruncate n => {| wd_db := truncate (wd_db d) n; wd_wal := wd_wal d; wd_ltx := wd_ltx d |}
   | WRestart sa => {| wd_db := wd_db d; wd_wal := Some (sa, []); wd_ltx := wd_ltx d |}
+  | WRemoveWal => {| wd_db := wd_db d; wd_wal := None; wd_ltx := wd_ltx d |}
   end.
 Definition wrun (d : wdisk) (l : list wstep) : wdisk := fold_left wstep_exec l d.
 
@@ -85,6 +87,10 @@ Definition wal_tx_steps (frames : list wframe) (x : wltx) : list wstep := map WF
 Definition ckpt_steps (pages : list (N * pg)) (size : N) (restart : option N) : list wstep :=
   map (fun kv => WCkptPage (fst kv) (snd kv)) pages ++ [WCkptTruncate size] ++
   match restart with Some sa => [WRestart sa] | None => [] end.
+
+(* Drop of a WAL-mode database: the tombstone file (no WAL position: salt 0, end 0), then the database file
+   (cut to zero pages, as in Crash.drop_steps) and the log are removed *)
+Definition wdrop_steps (x : wltx) : list wstep := [WLtxRename x; WCkptTruncate 0; WRemoveWal].
 
 (* ---- correspondence: a WAL-mode crash directory as the harness finds it ---- *)
 Definition mk_wframe (p : N) (q : pg) (c : N) : wframe := {| w_pgno := p; w_page := q; w_commit := c |}.
